@@ -141,6 +141,8 @@ class Ref(object):
         """returns True if the hook invocation raised"""
         if self.dry or not self.with_hooks:
             return False
+        if self.with_hooks is not True and name not in self.with_hooks:
+            return False        # the environment does not provide this hook
         k = len(self.hooks)
         self.hooks.append((name, ref))
         if "tag" not in name and "step" not in name:
